@@ -211,6 +211,9 @@ def chip(cfg, v):
     if t == 'dec':
         # "dollar values with two decimal places" (docs/simulation.rst)
         return (Decimal(int(v)) / Decimal(4)).quantize(Decimal('0.01'))
+    if t == 'decn':
+        # the same values in normalised form (Decimal('1E+2') for 100)
+        return (Decimal(int(v)) / Decimal(4)).normalize()
     raise ValueError(t)
 
 
@@ -246,7 +249,7 @@ def make_rake(cfg):
     t = cfg.get('chip', 'int')
     if t == 'frac':
         pct = Fraction(num, den)
-    elif t == 'dec':
+    elif t in ('dec', 'decn'):
         pct = Decimal(num) / Decimal(den)
     else:
         pct = num / den
@@ -366,6 +369,8 @@ def build_state(cfg, mask=None, deck_seed=None):
 def _build_state(cfg, mask=None, deck_seed=None):
     autos = mask_to_autos(cfg['autos'] if mask is None else mask)
     mode = Mode.TOURNAMENT if cfg['mode'] == 'T' else Mode.CASH_GAME
+    if cfg.get('mode_as_str'):
+        mode = str(mode.value)
     antes = [chip(cfg, v) for v in cfg['antes']]
     blinds = [chip(cfg, v) for v in cfg['blinds']]
     stacks = [chip(cfg, v) for v in cfg['stacks']]
